@@ -76,7 +76,8 @@ def build_patch(pa, ps, pst, f0, f1, f2, body):
 def start_body(has_fin):
     raw = base_body(spec={'x': 1, 'f': 'old'}, annotations={'k': 'v1', 'other': 'keep'},
                     finalizers=['a/fin'] + ([FIN] if has_fin else []))
-    raw['status'] = {'s': 'old', 'items': ['i0']}
+    if not vkopf.cell().get('no_status'):
+        raw['status'] = {'s': 'old', 'items': ['i0']}     # (cell no_status: a fresh object without any status stanza)
     return raw
 
 
@@ -361,6 +362,7 @@ def h_daemon_delivery(stop_kind: int, gap: int, sub: bool, returns: bool, attemp
 
 def obligations():
     obs = split(Ob('h_plan', {}, timeout=1500, twins=['json_patch', 'status_subresource']), pa=[0, 1, 2], pst=[0, 1, 2])
+    obs += split(Ob('h_plan', {'no_status': True}, timeout=1500), pa=[0], pst=[0, 1, 2])
     obs += split(Ob('h_interference', {}, timeout=1500, twins=['conflict', 'gone']), at=[0, 1, 2, 3], kind=[0, 1, 2, 3])
     obs.append(Ob('h_identity', {}, expect='counterexample', finding='F6', timeout=300))
     obs += split(Ob('h_daemon_delivery', {}, timeout=900, path_timeout=200, twins=['stopped_with_last_words']), stop_kind=[0, 1, 2])
